@@ -108,8 +108,11 @@ func (s *RedundantScope) handleVarassign(mkline *MkLine, ind *Indentation) {
 		}
 	}
 
+	// The assignments from the pkgsrc infrastructure count as well, since
+	// an included file from mk/ may have changed the value in between.
+	//
 	// TODO: Skip the whole redundancy check if the value is not known to be constant.
-	if effOp == opAssign && !afterShell && info.vari.Value() == value {
+	if effOp == opAssign && !afterShell && info.vari.ValueInfra() == value {
 		effOp = opAssignDefault
 	}
 
